@@ -8,6 +8,7 @@ import (
 
 func pillars(s *calendar.Solar, sect int) []string {
 	ec := s.GetLunar().GetEightChar()
+	_ = ec.String() // a caller that looks at the chart before choosing the convention
 	ec.SetSect(sect)
 	return []string{ec.GetYear(), ec.GetMonth(), ec.GetDay(), ec.GetTime()}
 }
